@@ -10,11 +10,18 @@
 (*      counterexamples, i.e. the universe tells these apart)              *)
 (*    then one step per list element for classification (stop at the first *)
 (*    hit), multilabel and prediction (last score wins).                   *)
-(*  pair cases: two objects of one class; model equality and the hashed    *)
-(*    projection (HashMode "code"; "identity" is the control).             *)
+(*  pair cases: two objects of one class, each with a provenance; steps:   *)
+(*    PairHash (the sources / donors are hashed: what a memoising __hash__ *)
+(*    would remember is recorded), PairDerive (copy / update / assign /    *)
+(*    re-validate), then model equality against the hash the object        *)
+(*    answers with.  HashMode "code" hashes the current fields; controls:  *)
+(*    "identity", and "memo" = Tag.__hash__ cached in the instance __dict__*)
+(*    (history/MC_Encoding_hash_memo.cfg: TLC finds the stale hash).       *)
 (***************************************************************************)
 EXTENDS Encoding, TLC, Json
-CONSTANTS MaxVocab, MaxTags, NTags, SmallTags, KeyMode, HashMode
+CONSTANTS MaxVocab, MaxTags, NTags, SmallTags, KeyMode, HashMode,
+          NearPairs,   \* derived objects meet: TRUE = partners differing in <= 1 field, FALSE = model-equal partners only
+          WideProv     \* partner provenance: TRUE = fresh / deep_copy / revalidate / same as the first, FALSE = fresh / same
 VARIABLES c, pc, i, map, cls, multi, pred
 
 vars == <<c, pc, i, map, cls, multi, pred>>
@@ -31,6 +38,9 @@ Scs(ts) == <<SubSeq(Pat1, 1, Len(ts)), SubSeq(Pat2, 1, Len(ts))>>
 EncCase(v, ts) == [kind |-> "enc", vocab |-> v, tags |-> ts, scs |-> Scs(ts), ftags |-> Filtered(v, ts),
                    fscs |-> [s \in DOMAIN Scs(ts) |-> FilteredSc(v, ts, Scs(ts)[s])]]
 
+PairCase(k, x, px, y, py) == [kind |-> "pair", cls |-> k, x |-> x, y |-> y, px |-> px, py |-> py]
+PartnerProvs(px) == IF WideProv THEN {Fresh, Prov("deep_copy", 0), Prov("revalidate", 0), px} ELSE {Fresh, px}
+
 Key(u) == CASE KeyMode = "term_value"  -> <<UTag[u][1], UTag[u][2]>>
             [] KeyMode = "name_value"  -> <<TermName[UTag[u][1]], UTag[u][2]>>
             [] KeyMode = "label_value" -> <<TermLabel[UTag[u][1]], UTag[u][2]>>
@@ -38,7 +48,10 @@ Key(u) == CASE KeyMode = "term_value"  -> <<UTag[u][1], UTag[u][2]>>
 Lookup(u) == IF \E e \in map : e[1] = Key(u) THEN <<(CHOOSE e \in map : e[1] = Key(u))[2]>> ELSE <<>>
 
 Init == /\ \/ \E v \in Vocabs, ts \in TagLists : (Len(v) < MaxVocab \/ Len(ts) <= SmallTags) /\ c = EncCase(v, ts)
-           \/ \E k \in 1..Len(ClassNames) : \E x \in Objects(k), y \in Objects(k) : c = [kind |-> "pair", cls |-> k, x |-> x, y |-> y]
+           \/ \E k \in 1..Len(ClassNames) : \E x \in Objects(k), y \in Objects(k) : c = PairCase(k, x, Fresh, y, Fresh)
+           \/ \E k \in 1..Len(ClassNames) : \E x \in Objects(k), y \in Objects(k) :
+                 \E px \in Provs(k) \ {Fresh} : \E py \in PartnerProvs(px) :
+                    (IF NearPairs THEN Near(k, x, y) ELSE ModelEq(k, x, y)) /\ c = PairCase(k, x, px, y, py)
         /\ pc = IF c.kind = "enc" THEN "build" ELSE "pair"
         /\ i = 1 /\ map = {} /\ cls = <<>> /\ multi = <<>> /\ pred = <<>>
 
@@ -62,9 +75,14 @@ PredSet  == /\ pc = "pred" /\ i <= Len(c.tags) /\ Lookup(c.tags[i]) # <<>>
             /\ pred' = [s \in DOMAIN c.scs |-> [pred[s] EXCEPT ![Lookup(c.tags[i])[1] + 1] = c.scs[s][i]]]
             /\ i' = i + 1 /\ UNCHANGED <<c, pc, map, cls, multi>>
 PredDone == pc = "pred" /\ i > Len(c.tags) /\ pc' = "done" /\ UNCHANGED <<c, i, map, cls, multi, pred>>
-Pair == pc = "pair" /\ pc' = "done" /\ UNCHANGED <<c, i, map, cls, multi, pred>>
+\* the sources are hashed; a memoising __hash__ remembers the projection of the fields they hold at that moment
+PairHash == /\ pc = "pair" /\ pc' = "pair_derive"
+            /\ map' = (IF CarriesDict(c.px) THEN {<<1, HashKey("code", c.cls, Donor(c.cls, c.x, c.px), 1)>>} ELSE {}) \cup
+                       (IF CarriesDict(c.py) THEN {<<2, HashKey("code", c.cls, Donor(c.cls, c.y, c.py), 2)>>} ELSE {})
+            /\ UNCHANGED <<c, i, cls, multi, pred>>
+PairDerive == pc = "pair_derive" /\ pc' = "done" /\ UNCHANGED <<c, i, map, cls, multi, pred>>
 
-Next == Build \/ Built \/ ClsSkip \/ ClsHit \/ ClsNone \/ MultiSkip \/ MultiSet \/ MultiDone \/ PredSkip \/ PredSet \/ PredDone \/ Pair
+Next == Build \/ Built \/ ClsSkip \/ ClsHit \/ ClsNone \/ MultiSkip \/ MultiSet \/ MultiDone \/ PredSkip \/ PredSet \/ PredDone \/ PairHash \/ PairDerive
 Spec == Init /\ [][Next]_vars /\ WF_vars(Next)
 
 Export == pc = "done" => PrintT(<<"CASE", ToJson(c)>>)
@@ -75,7 +93,11 @@ ImplEncoder  == (IsEnc /\ pc # "build") => \A u \in 1..NU : Lookup(u) = Encode(c
 ImplClassify == (IsEnc /\ pc \in {"multi", "pred", "done"}) => cls = Classify(c.vocab, c.tags)
 ImplMulti    == (IsEnc /\ pc \in {"pred", "done"}) => multi = Multilabel(c.vocab, c.tags)
 ImplPred     == (IsEnc /\ pc = "done") => \A s \in DOMAIN c.scs : PredOK(c.vocab, c.tags, c.scs[s], pred[s])
-ImplHashSound == pc = "pair" => LawHashSound(HashMode, c.cls, c.x, c.y)
+Memo(who) == IF \E e \in map : e[1] = who THEN <<(CHOOSE e \in map : e[1] = who)[2]>> ELSE <<>>
+FinalHash(who, x) == IF HashMode = "memo"
+                     THEN (IF c.cls = 2 /\ Memo(who) # <<>> THEN Memo(who)[1] ELSE HashKey("code", c.cls, x, who))
+                     ELSE HashKey(HashMode, c.cls, x, who)
+ImplHashSound == (~IsEnc /\ pc = "done") => (ModelEq(c.cls, c.x, c.y) => FinalHash(1, c.x) = FinalHash(2, c.y))
 (* laws of Req, once per case *)
 Laws == (IsEnc /\ pc = "cls" /\ i = 1) =>
            /\ LawRoundTrip(c.vocab) /\ LawEncodeIff(c.vocab) /\ LawOOV(c.vocab, c.tags)
